@@ -169,8 +169,8 @@ def spec() -> Spec:
         extract=extract,
         nontrivial=nontrivial,
         post=post,
-        budget={"quick": 500, "thorough": 12000},
-        search_budget={"quick": 1200, "thorough": 12000},
+        budget={"quick": 350, "thorough": 6000},
+        search_budget={"quick": 900, "thorough": 6000},
         divergence_is_violation=True,
         rule="cases of 4-400 decode calls: valid URIs of versions 1-4, expiry fields 0, +-1, 2^33, +-9223372035..7, 2^63-1, 2^63, 2^64-1 "
              "(out-of-range ones in a capped number of cases), every truncation of a URI and of a payload, base64 corruption (non-alphabet bytes, '=' in every position), "
